@@ -836,7 +836,7 @@ pub fn show(path: &str) {
         println!("trail: {:?}", d.trail);
     }
     if let Some(m) = &res.rendered.message {
-        println!("message:\n{}", &m[..m.len().min(3000)]);
+        println!("message:\n{}", m.chars().take(3000).collect::<String>());
     }
     println!("graph: {}", serde_json::to_string(&res.rendered.graph).unwrap());
 }
